@@ -34,6 +34,7 @@ def _work(task):
     b = facts.bodies[bid]
     t0 = time.time()
     E.iter_classes = collections.Counter()
+    E.part_order = set()
     E.iteration_hook = specs.iteration_hook_for(E, b)
     try:
         if b.unsafe and b.name in CONTRACTS:
@@ -130,6 +131,31 @@ def analyse_configs(paths, jobs=None, only=None, select=None):
             'wall': wall,
             'n_bodies': len(f.bodies),
         }
+        # cross-root agreement: fold must take the parts of a merged iterator in the order next() does
+        by_type = {}
+        for r in rs:
+            k = r.get('root_key') or []
+            if len(k) == 3 and k[1] == 'Iterator' and k[2] in ('next', 'fold') and (r.get('digest') or {}).get('part_order'):
+                by_type.setdefault(k[0], {})[k[2]] = r
+        for tp, d in sorted(by_type.items()):
+            if 'next' in d and 'fold' in d:
+                on = {tuple(x) for x in d['next']['digest']['part_order']}
+                of = {tuple(x) for x in d['fold']['digest']['part_order']}
+                bad = sorted((i, j) for (i, j) in of if (j, i) in on and (i, j) not in on)
+                m['n_oblig']['ORDER'] += 1
+                m['n_oblig_p']['C08'] += 1
+                if bad:
+                    r = d['fold']
+                    v = {'rule': 'ORDER', 'status': 'refuted', 'root': r['root'], 'chain': [], 'primitive': 'part order',
+                         'what': 'fold takes the elements of part %d before those of part %d, next() yields them the other '
+                                 'way round: fold does not give the result of stepping with next()' % bad[0],
+                         'span': r.get('span'), 'config': c, 'key': 'ORDER|%s||part order' % r['root'],
+                         'unwinding': False, 'props': ['C08'], 'root_props': r.get('root_props')}
+                    r['violations'].append(v)
+                    m['violations'].append(v)
+                else:
+                    m['n_ok']['ORDER'] += 1
+                    m['n_ok_p']['C08'] += 1
         for r in rs:
             m['n_oblig'].update(r['n_oblig'])
             m['n_ok'].update(r['n_ok'])
